@@ -317,6 +317,8 @@ class Ctl:
         with self.cond:
             if job in self.ended:
                 return "end"
+            if until is not None and self.parked.get(job) == tuple(until):
+                return "parked"  # already sitting exactly there
             self.stop[job] = None if until is None else {tuple(until)}
             self.parked.pop(job, None)
             self.cond.notify_all()
@@ -413,6 +415,7 @@ class Rig:
             apply_op_state(self.state, op)
         self.orig_encode = self.hooks.wrap_encoder(self.driver.encoder)
         self.njobs = 0
+        self.deep = False
         self.futs: List[Any] = []
         self.versions: List[dict] = []  # canonical in-memory state per version
         self.chunks: List[List[str]] = []  # what encoder.persist writes for that version
@@ -711,10 +714,15 @@ def _crash_child(rig: Rig, k: int, wfd: int):
                     os._exit(0)
             return local
 
+        here = __file__
+        deep = rig.deep
+
         def tracer(frame, event, arg):
             co = frame.f_code
             if co is json_dump or co.co_filename.startswith(pdir):
                 return local
+            if deep and co.co_filename != here:
+                return local  # every Python frame under the save (stdlib included), not the wrappers
             return None
 
         rig.hooks.sink = wfd
@@ -740,6 +748,7 @@ def crash_scenario(ctx: Ctx, scn: dict, model_cases: list, only_k: Optional[int]
     st = ctx.stats
     ctl = Ctl()
     rig = Rig(ctl, scn["initial"], with_loop=False, write_initial=scn["prev_on_disk"])
+    rig.deep = bool(scn.get("deep"))
     try:
         prev = ref.canon_state(rig.state) if scn["prev_on_disk"] else None
         prev_bytes = None
@@ -815,12 +824,13 @@ def crash_scenario(ctx: Ctx, scn: dict, model_cases: list, only_k: Optional[int]
             labels, names = translate(rlog, crashed=crashed)
             mc = model_case(None if prev_bytes is None else prev_bytes.decode(), [new_chunks], labels, names)
             mc.update(stream="crash", case={"scenario": scn["name"], "k": k, "events": npoints}, target=target, temps=temps, crash=True)
-            model_cases.append(mc)
+            if not rig.deep:  # inside library frames a wrapped call may be half done: oracle only
+                model_cases.append(mc)
             if verbose:
                 print(f"crash at line event {k}: events={[e[1] for e in rlog]} file={which or 'BROKEN: ' + why} temps={len(temps)}")
-            if k in (1,) or (crashed and which == "new" and not any(s.get("crash_new") for s in st.samples)):
+            if crashed and which == "new" and not any(isinstance(s, dict) and s.get("stream") == "crash" for s in st.samples):
                 st.sample(
-                    {"stream": "crash", "scenario": scn["name"], "k": k, "io_calls_before_death": [e[1] for e in rlog if e[1] in POINTS][-6:], "file_is": which, "stray_temps": len(temps), "crash_new": which == "new"}
+                    {"stream": "crash", "scenario": scn["name"], "killed_at_line_event": k, "last_io_calls_before_death": [e[1] for e in rlog if e[1] in POINTS][-4:], "file_is": which, "stray_temps": len(temps)}
                 )
             shutil.rmtree(d, ignore_errors=True)
             if only_k or not crashed:
@@ -842,6 +852,7 @@ def crash_scenarios(ctx: Ctx) -> List[dict]:
     i0, ops = mk_ops(rng, 0, 1)
     out.append({"name": "first-save-no-file", "initial": i0, "ops": ops, "prev_on_disk": False})
     if not ctx.quick:
+        out.append(dict(out[0], name="add-second-controller-every-python-frame", deep=True))
         i0, _ = mk_ops(rng, 3, 0)
         out.append({"name": "remove-controller-shrinks-file", "initial": i0, "ops": [{"op": "unpair", "id": i0[1]["id"]}], "prev_on_disk": True})
         for n in range(ctx.n(0, 3)):
@@ -1223,7 +1234,10 @@ def run(ctx: Ctx):
         # crash first: fork wants a single-threaded parent
         for scn in crash_scenarios(ctx):
             total = crash_scenario(ctx, scn, model_cases)
-            st.notes.append(f"crash[{scn['name']}]: {total} source-line events inside one save, each tried")
+            st.notes.append(
+                f"crash[{scn['name']}]: {total} source-line events inside one save "
+                f"({'all Python frames incl. stdlib' if scn.get('deep') else 'pyhap frames + json.dump'}), each tried"
+            )
         fault_stream(ctx, model_cases)
         schedule_stream(ctx, model_cases)
         natural_stream(ctx)
